@@ -5,7 +5,7 @@ Emit == (Len(hist) = Depth) => PrintT(<<"B", ToJson(hist)>>)
 \* Random walks use the same actions as Next. TLC's simulator first picks one of the actions it has split Next
 \* into (it splits existential quantifiers over constant sets), then one of its successors: the quantifier
 \* domains below depend on a variable so that each kind of call is one action and the kinds are balanced.
-NewTxs == {t \in TxSpace : t.n = made + 1 /\ t.from # t.to}
+NewTxs == {t \in TxSpace : t.n = made + 1}
 GenNext == \/ \E p \in NewTxs \X BOOLEAN : Add(p[1], p[2])
            \/ \E p \in known \X BOOLEAN : Add(p[1], p[2])
            \/ \E S \in SUBSET (known \ committed) : Commit(S)
